@@ -9,6 +9,19 @@ HERE = os.path.dirname(os.path.dirname(os.path.abspath(__file__)))
 sys.path.insert(0, HERE)
 
 CLAIMED = {
+    'C03': dict(
+        category='other',
+        text='Per-call-site failure discipline over everything reachable from the interposers: socket()/send() flags '
+             'constant-folded (NONBLOCK, CLOEXEC, DONTWAIT, NOSIGNAL); deny-list of blocking/signalling APIs on the resolved '
+             'call graph; a forward may-analysis proves every fallible I/O result (FILE*, getcwd, ttyname_r, stat, '
+             'gettimeofday, getpwuid_r, ...) is tested before the dependent handle/buffer is used; outputs contain no '
+             'retry loops around transmit/open calls; the action ignores the output status. Every single fault and '
+             'every fault sequence is covered because each site is decided independently of history.',
+        design_ref='DESIGN.md §5 C03, §4 A1/A5',
+        note='Not decided: latency, kernel-level blocking of open/write on exotic sinks (FIFO without reader). Memory '
+             'exhaustion outside the domain.',
+        technique='static analysis: flag constant folding + call-graph deny-list + nullable/valid-on-success dataflow + '
+                  'CFG cycle detection'),
     'C04': dict(
         category='other',
         text='All CFG paths of action -> dispatch -> output table -> output: the DROP outcome of the filter test cannot '
